@@ -31,6 +31,7 @@ the value type of the `tlv` correspondence family (`dval_lawful`) and for nested
 messages of every depth (`nested_lawful_every_depth`).
 -/
 import Woodpile.Proofs.RoughTlvSink
+import Woodpile.Props.C12
 
 namespace Woodpile.Props.C11
 open Woodpile.RoughTlv
@@ -165,6 +166,35 @@ theorem view_find (bytes : V → List UInt8) (len : V → Nat) (ps : List (Pair 
   | some v =>
     obtain ⟨q, hq, hqt, hqv⟩ := hA v hr'
     rw [← hqv, hall q hq hqt]
+
+/-- `find_tag` on the emitted bytes (the audit's "nothing on `find_tag`"), for any
+acceptable search: it does not panic; an index it returns is the position, in the stably
+sorted list, of a pair the caller stored under exactly the tag `t`, and `find(t)` is that
+pair's bytes; it returns nothing only if no pair carries `t`. -/
+theorem view_find_tag (bytes : V → List UInt8) (len : V → Nat) (ps : List (Pair V))
+    (w : Wrapper V) (h : Accepted len ps w) (hl : ∀ p ∈ ps, len p.2 = (bytes p.2).length)
+    (s : List Nat → Nat → Option (Option Nat)) (hs : IsSearch s) (t : Nat) :
+    ∃ out r, w.encode bytes len = some out ∧ (View.mk out).findTagWith s t = some r ∧
+      (∀ i, r = some i → ∃ p, (sortByTag ps)[i]? = some p ∧ p.1.toNat = t ∧
+        (View.mk out).findWith s t = some (some (bytes p.2))) ∧
+      (r = none → ∀ p ∈ ps, p.1.toNat ≠ t) := by
+  obtain ⟨out, h1, hacc⟩ := view_accepts bytes len ps w h hl
+  obtain ⟨out', h1', _, _, _, hget, _⟩ := view_roundtrip bytes len ps w h hl
+  rw [h1] at h1'; cases h1'
+  obtain ⟨r, hr, hsome, hnone⟩ := Woodpile.Props.C12.find_tag_sound s hs out ⟨out⟩ hacc t
+  refine ⟨out, r, h1, hr, ?_, ?_⟩
+  · intro i hi
+    obtain ⟨_, val, hg, _, hf⟩ := hsome i hi
+    rw [hget i] at hg
+    simp only [Option.some.injEq, List.getElem?_map, Option.map_eq_some_iff, Prod.mk.injEq] at hg
+    obtain ⟨p, hp, hpt, hpv⟩ := hg
+    exact ⟨p, hp, hpt, by rw [hf, hpv]⟩
+  · intro hn p hp hpt
+    obtain ⟨hno, _⟩ := hnone hn
+    have hmem : p ∈ sortByTag ps := (sortByTag_perm ps).mem_iff.mpr hp
+    obtain ⟨i, hi⟩ := List.getElem?_of_mem hmem
+    have := hno i (p.1.toNat, bytes p.2) (by rw [hget i]; simp [hi])
+    exact this hpt
 
 /-- `new` (and `new_from_slice`) reject exactly the lists whose pair count, some
 single value length, or total encoded length (count word + `N-1` offsets + `N`
